@@ -115,7 +115,9 @@ PROPS = {
                      "Grol.Lexer.appendRune_eq", "Grol.Lexer.readStringLoop_agree", "Grol.Lexer.readString_eq_spec",
                      "Grol.Lexer.C16.string_literal", "Grol.Lexer.C16.unterminated_string",
                      "Grol.Lexer.skipWhitespace_flags", "Grol.Lexer.C16.lineInv_next", "Grol.Lexer.C16.lastNewLine_le",
-                     "Grol.Lexer.C16.flags_exact", "Grol.Lexer.C16.after_linecomment", "Grol.LexStream.lexer_streamWF"],
+                     "Grol.Lexer.C16.flags_exact", "Grol.Lexer.C16.after_linecomment", "Grol.LexStream.lexer_streamWF",
+                     "Grol.Lexer.isTrimOf_trimSpaceRight", "Grol.Lexer.isTrimOf_iff", "Grol.Lexer.C16.linecomment_literal",
+                     "Grol.Lexer.C16.literal_ends_line", "Grol.LexStream.lexer_litFact"],
         "suites": ["lex"],
         "rule": "lex suite: every case is one byte string in one lexer mode (f = lexer.NewBytes, l = lexer.NewLineMode); the observation is "
                 "every NextToken call up to the first end marker plus 3 more calls (type, literal, Pos before/after, HadWhitespace, "
@@ -383,8 +385,8 @@ PROPS = {
     },
     "C03": {
         "generated": True,
-        "proof_modules": ["GrolProofs.Props.C03", "GrolProofs.Props.C08"],
-        "theorems": ["Grol.C03.exactly_one_newline_parsed", "Grol.Parser.parseProgram_endOK", "Grol.Parser.litFact_of_b", "Grol.Parser.allEnd",
+        "proof_modules": ["GrolProofs.Props.C03", "GrolProofs.Props.C08", "GrolProofs.Props.C03Lexed"],
+        "theorems": ["Grol.C03.exactly_one_newline_lexed", "Grol.LexStream.lexer_litFact", "Grol.C03.exactly_one_newline_parsed", "Grol.Parser.parseProgram_endOK", "Grol.Parser.litFact_of_b", "Grol.Parser.allEnd",
                      "Grol.C03.ends_with_newline", "Grol.C03.exactly_one_newline", "Grol.Printer.printNode_P", "Grol.Printer.printNode_frame", "Grol.C03.model_is_stateless",
                      "Grol.C03.witness_not_idempotent", "Grol.C08.printer_never_panics"],
         "suites": ["format03"],
